@@ -90,7 +90,7 @@ class EpochTables(Space):
 
 
 THR2 = dict(S.T0, monotonicity_threshold=.4, min_n_cycles=1)
-CONFIGS = [(E, kind, method, centre) for E in (4, 8, 12, 16, 24) for kind in ('none', 'dict', 'list')
+CONFIGS = [(E, kind, method, centre) for E in (4, 8, 12, 16, 24) for kind in ('none', 'dict', 'list', 'alias')
            for method in ('cycles', 'amp') for centre in ('peak', 'trough')]
 
 
@@ -103,6 +103,10 @@ def build_kwargs(kind, method, centre, n):
         base['burst_kwargs'] = {'amp_threshes': (.5, 1.)}
     if kind == 'dict':
         return base
+    if kind == 'alias':
+        # the same option set for every epoch, written the short way: ONE dict object repeated n times
+        base['threshold_kwargs'] = dict(THR2) if method == 'cycles' else dict(S.TA1)
+        return [base] * n
     alt = copy.deepcopy(base)
     alt['threshold_kwargs'] = dict(THR2) if method == 'cycles' else dict(S.TA1)
     return [copy.deepcopy(base) if i % 2 == 0 else copy.deepcopy(alt) for i in range(n)]
@@ -121,7 +125,7 @@ def eval_word(case):
         return SKIP('single epoch')
     kw = build_kwargs(kind, method, centre, n)
     try:
-        ref, flags, flat = ref_epoched(sigs, 64, (6, 14), copy.deepcopy(kw))
+        ref, flags, flat = ref_epoched(sigs, 64, (6, 14), [copy.deepcopy(k) for k in kw] if isinstance(kw, list) else copy.deepcopy(kw))
     except Exception:      # noqa
         return SKIP('flattened analysis precondition')
     if len(flat) < 2:
@@ -132,7 +136,7 @@ def eval_word(case):
     arg = sigs.copy() if layout == 'C' else np.asfortranarray(sigs)      # same values, column-major memory layout
     sgn['layout'] = layout
     try:
-        got = compute_features_2d(arg, 64, (6, 14), copy.deepcopy(kw), axis=None)
+        got = compute_features_2d(arg, 64, (6, 14), kw if kind == 'alias' else copy.deepcopy(kw), axis=None)
     except Exception as e:      # noqa
         return VIOL(dict(sgn, kind='raise', exc=type(e).__name__, empty_epoch=any(len(r) == 0 for r in ref)),
                     'compute_features_2d(axis=None) raised %s: %s' % (type(e).__name__, str(e)[:120]), observed=obs)
